@@ -5,7 +5,7 @@ from checks.c05 import Cmd, Num, num, gen_cmd, gen_seq, gen_seq_safe, safe_dur, 
 
 ID = "C06"
 LEAN_MODULE = "Ctrmml.Properties.C06"
-THEOREMS = ["C06_per_track_state", "C06_leading_blanks_skip", "C06_bar_skip", "C06_comment_invariant", "C06_comment_line_invariant", "C06_track_id_map", "C06_track_list_ids", "C06_star_decimal", "C06_multitrack_unfold", "C06_conditional_select_partial", "C06_separator_suffices", "C06_layout_run_partial", "C06_layout_invariant_partial", "C06_multitrack_eq_single_partial", "C06_multitrack_blocks_run_partial", "C06_multitrack_eq_single_blocks_partial", "C06_alternatives_clean", "C06_nested_separator_counterexample", "C06_short_block_counterexample"]
+THEOREMS = ["C06_per_track_state", "C06_leading_blanks_skip", "C06_bar_skip", "C06_comment_invariant", "C06_comment_line_invariant", "C06_track_id_map", "C06_track_list_ids", "C06_star_decimal", "C06_multitrack_unfold", "C06_conditional_select_partial", "C06_separator_suffices", "C06_layout_run_partial", "C06_layout_invariant_partial", "C06_multitrack_eq_single_partial", "C06_multitrack_blocks_run_partial", "C06_multitrack_eq_single_blocks_partial", "C06_alternatives_clean", "C06_nested_separator_counterexample", "C06_short_block_counterexample", "C06_layout_run2_partial", "C06_layout_invariant2_partial", "C06_multitrack_eq_single2_partial", "C06_track_count_bound", "C06_header_ids_16bit", "C06_multitrack_blocks_run16_partial", "C06_multitrack_eq_single_blocks16_partial"]
 LEVEL = "proof"
 STREAM = "mml.layouts"
 CHUNK = 100
@@ -26,8 +26,13 @@ LEVEL_TEXT = ("Machine-checked theorems over the Lean models of Line_Buffer (inp
               "gives each track what 'A body' gives it; C06_multitrack_blocks_run_partial / C06_multitrack_eq_single_blocks_partial - the same with conditional blocks: "
               "the track at position j receives the plain commands and alternative j of every block, equal to its single-track lines, when no alternative contains '/', "
               "';', '}' or NUL and every block has an alternative per track (that hypothesis is defect D16, proved as two counterexamples and recorded as known findings). "
+              "Round 3: C06_layout_run2_partial / C06_layout_invariant2_partial / C06_multitrack_eq_single2_partial are the same three whole-line statements for the wider set "
+              "LCovered2 (Proofs/LayoutCmd2: LCovered plus the fine volume V n (n >= 0), V+n, V-n (n > 0 decimal), the echo \\ with every duration form when the byte directly behind it "
+              "is neither a blank nor '=', and the loop break / on lines without conditional blocks); C06_track_count_bound derives ids.length <= 65536 from Nodup + 16-bit track "
+              "numbers (pigeonhole), C06_header_ids_16bit shows the ids of any header are 16-bit, and C06_multitrack_blocks_run16_partial / "
+              "C06_multitrack_eq_single_blocks16_partial are the block theorems without the length hypothesis. "
               "Results are stated modulo the source references (line, column) stamped on the track, which necessarily differ between layouts. NOT proved: the same "
-              "statements for the commands outside the covered subset (\\ \\= _{..} V '...' and the loop break /); they are kept as "
+              "statements for \\= , _{..} / k{..} (D16 interaction), '...', \\ followed by a blank or the end of the line, V with a hex-negative number, and the loop break / or V / \\ INSIDE lines with conditional blocks; they are kept as "
               "C06_full_statement_layout_invariant / C06_full_statement_multitrack_eq_single and decided per generated case by the metamorphic correspondence stream (every "
               "layout of every generated stream parsed by the real code and by the model, the spec demanding equal events per track across layouts and equality with "
               "the meaning of each track's command list).")
@@ -35,10 +40,10 @@ LEVEL_NOTE = ("Trusted: Lean kernel (propext, Classical.choice, Quot.sound), the
               "the C++ established by differential testing), Spec/Layout + Spec/MmlMeaning (my reading of mml_ref.md), the layout generator in checks/c06.py "
               "(what counts as a layout of a stream), glibc strtol in the C locale. Proved in full: track_id_map, star_decimal, per_track_state, the local lexer/parser "
               "lemmas. Partial: conditional_select and the block theorems (hypothesis = no '/', ';', '}', NUL inside the alternatives and one alternative per track: "
-              "D16); layout_run / layout_invariant / multitrack_eq_single (hypothesis CmdsOk = the covered command subset LCovered - C05's span theorem widened in Proofs/LayoutCmd - with numbers in range; the "
+              "D16); layout_run / layout_invariant / multitrack_eq_single and their round-3 forms *2 over LCovered2 (hypothesis CmdsOk / L2.CmdsOk = the covered command subset LCovered - C05's span theorem widened in Proofs/LayoutCmd - with numbers in range; the "
               "layouts themselves are arbitrary). The layout theorems speak about the model's Track values modulo references; that the real parser produces the same "
               "events as the model on layouts is what the correspondence stream checks (the proof examples are corpus cases of the stream). Oracle only: layouts "
-              "containing commands outside the covered subset, the error behaviour of rejected streams, texts that are not layouts (must be rejected).")
+              "containing commands outside LCovered2 (\\= _{..} '...', \\ before a blank; V, \\ and the loop break on lines with conditional blocks), the error behaviour of rejected streams, texts that are not layouts (must be rejected).")
 RULE = ("abstract multi-track streams (1..4 tracks from letters, digits and *n incl. 0, 25, 26, 35, 36, 255, 65535; 1..4 segments addressed to sub-lists in any "
         "order; typed commands from the C05 generator; conditional blocks with one alternative per track, empty alternatives included) each rendered in 3..6 "
         "layouts: the canonical multi-track lines, the equivalent single-track lines, and random ones (partition of each segment's tracks into lines in any "
@@ -384,6 +389,10 @@ def corpus_streams():
         ["AB t120 @3 v12 [c(d)2]4 L p-1 _2 __-1 k3 %5"], ["B t120|@3\tv12 [ c ( d )2 ]4", " L p-1 _2|__-1 k3\t%5 ;end", "A t120|@3\tv12 [ c ( d )2 ]4", " L p-1 _2|__-1 k3\t%5 ;end"]]
     yield [Seg([0, 1], [("c", n_("c", L(4))), ("c", Cmd("R", L(8))), ("c", Cmd("g", 3, "n", L(16))), ("c", n_("e"))])], [
         ["AB c4 R8 ~d16 e"], ["A c4|R8", " ~d16\te", "B c4|R8", " ~d16\te"]]
+    # the round-3 proof example (exMulti2 / exSingle2): fine volume, echo, loop break outside conditional blocks
+    ev2 = [X("loopStart"), n_("c"), X("volFine", 10), X("loopBreak"), X("volFineUp", 2), Cmd("e", L(4)), X("volFineDown", 3), X("loopEnd", 2)]
+    yield [Seg([0, 1], [("c", c_) for c_ in ev2])], [
+        ["AB [c V10 / V+2 \\4 V-3 ]2"], ["B [c|V10/V+2", "\t\\4V-3]2 ; x", "A [c|V10/V+2", "\t\\4V-3]2 ; x"]]
     # hexadecimal numbers need their blank
     yield [Seg([0], [("c", n_("g", ("L", Num(12, True), 0))), ("c", n_("e")), ("c", Cmd("x", "vol", Num(10, True))), ("c", n_("a"))])], [
         ["A g$c e v$a a"], ["A g$c|e|v$a|a"], ["A g$c\te v$a", " a"]]
